@@ -6,55 +6,17 @@ C07 — Model of `normal_ordered` for FermionOperators
 Import-free.
 -/
 import OFV.Model.C07
+import OFV.Model.C03
 
 namespace OFV
 namespace Model
 namespace C07
 
-/-- loop state of `normal_ordered_ladder_term`: the mutable `term` list, the running
-`coefficient`, the accumulated `ordered_term`, and whether the early `return` fired -/
-structure NOState where
-  term : Term
-  coeff : GQ
-  acc : Op
-  done : Bool
-
-/-- body of the inner loop for one `j` (`rec` = the recursive call on a shorter term) -/
-def noStep (tol : Rat) (rec : Term → GQ → Op) (st : NOState) (j : Nat) : NOState :=
-  if st.done then st else
-  let r := st.term.getD j (0, 0)
-  let l := st.term.getD (j - 1) (0, 0)
-  if r.2 != 0 && l.2 == 0 then
-    -- raising on the right, lowering on the left: swap, `coefficient *= parity`
-    let term' := (st.term.set (j - 1) r).set j l
-    let coeff' := st.coeff * (-1)
-    if r.1 == l.1 then
-      let newTerm := term'.take (j - 1) ++ term'.drop (j + 1)
-      { term := term', coeff := coeff', acc := iadd tol st.acc (rec newTerm ((-1) * coeff')), done := false }
-    else
-      { term := term', coeff := coeff', acc := st.acc, done := false }
-  else if r.2 == l.2 then
-    if r.1 == l.1 then { st with done := true }
-    else if r.1 > l.1 then
-      { term := (st.term.set (j - 1) r).set j l, coeff := st.coeff * (-1), acc := st.acc, done := false }
-    else st
-  else st
-
-/-- `[(i, j) for i in range(1, n) for j in range(i, 0, -1)]`, only the `j`s matter -/
-def noSchedule (n : Nat) : List Nat :=
-  (List.range n).flatMap fun i => if i = 0 then [] else (List.range i).reverse.map (· + 1)
-
-/-- `normal_ordered_ladder_term(term, coefficient, parity=-1)`; the recursion is on a
-term shorter by two, so `fuel = len(term)` suffices -/
-def noTerm (tol : Rat) : Nat → Term → GQ → Op
-  | 0, t, c => mk .fermion t c
-  | fuel + 1, t, c =>
-    let st := (noSchedule t.length).foldl (noStep tol (noTerm tol fuel)) ⟨t, c, [], false⟩
-    if st.done then st.acc else iadd tol st.acc (mk .fermion st.term st.coeff)
-
-/-- `normal_ordered(FermionOperator)` -/
-def normalOrdered (tol : Rat) (a : Op) : Op :=
-  a.foldl (fun acc (t, c) => iadd tol acc (noTerm tol (t.length + 1) t c)) []
+/-- `normal_ordered(FermionOperator)`: the Model of transforms/opconversions/term_reordering.py
+(`normal_ordered`, `normal_ordered_ladder_term` with parity = -1) is the one of property C03
+(`OFV.Model.C03`, proved sound there); it is reused here so that the C03 theorems apply to
+`double_commutator` and to the fallback of the diagonal-Coulomb commutator. -/
+def normalOrdered (tol : Rat) (a : Op) : Op := OFV.Model.C03.normalOrdered tol .fermion a
 
 /-- `double_commutator(op1, op2, op3)` without term info -/
 def doubleCommutator (tol : Rat) (a b c : Op) : Op :=
